@@ -71,6 +71,15 @@ func genC05(seed uint64, i int, tier string) *Scenario {
 	b := pickBatch(r)
 	sc := &Scenario{Cfg: Config{Batch: b, Alias: r.Chance(0.3), Lazy: r.Chance(0.3)}}
 	sc.Init = genStoreFor(r, b, style)
+	if r.Chance(0.12) {
+		// a bare literal key set as the whole WHERE clause (the aliases are then used in
+		// other fields, ORDER BY or GROUP BY only), or with one alias atom conjoined
+		g.keyListWhere = r.Range(1, 2)
+		g.feat["alias-chain"] = true
+		if style == StoreCollide || style == StoreUnicode || style == StoreBytes {
+			sc.Init = genStoreFor(r, b, StoreMixed) // a store that holds the numbered keys
+		}
+	}
 	q := g.Select(true)
 	if !q.Star && len(q.Group) == 0 && r.Chance(0.7) {
 		if len(q.Fields) == 0 || q.Fields[0].E.Kind != "key" {
